@@ -16,7 +16,8 @@ InputError::InputError(std::shared_ptr<InputRef> ref, const char* message)
 {
 	if(ref == nullptr)
 	{
-		std::strncpy(buf,message,200);
+		std::strncpy(buf,message,199);
+		buf[199] = 0;
 	}
 	else
 	{
